@@ -45,20 +45,32 @@ def lcap(n):
     return i & 255
 
 
-def tlsh(eff, w, chklen, data, force):
-    """digest bytes or None"""
-    n = len(data)
+def qratio(q, q3):
+    """floor(100*q/q3) mod 16 over the rationals (exact: no floating point)"""
+    from fractions import Fraction
+    return math.floor(Fraction(100 * q, q3)) % 16
+
+
+def tlsh_encode(eff, chklen, bucket, n, ck, force):
+    """digest bytes or None from the histogram alone: bucket = the 256 counts, ck = checksum bytes, n = input length"""
     if n < 50 or (not force and n < 256): return None
-    bk = tlsh_buckets(w, data)[:eff]
+    bk = list(bucket[:eff])
     if too_few(eff, sum(1 for x in bk if x)): return None
-    ck = [0] * chklen
-    for e in range(w - 1, n):
-        for t in range(chklen): ck[t] = bmap(ck[t - 1] if t else 0, data[e], data[e - 1], ck[t])
     srt = sorted(bk)
     q1, q2, q3 = srt[eff // 4 - 1], srt[eff // 2 - 1], srt[3 * eff // 4 - 1]
     code = lambda x: 3 if x > q3 else 2 if x > q2 else 1 if x > q1 else 0
     body = [sum(code(bk[4 * i + j]) << (2 * j) for j in range(4)) for i in range(eff // 4)]
-    return bytes([swap(c) for c in ck] + [swap(lcap(n)), ((q1 * 100 // q3) % 16) << 4 | (q2 * 100 // q3) % 16] + body[::-1])
+    return bytes([swap(c) for c in ck] + [swap(lcap(n)), qratio(q1, q3) << 4 | qratio(q2, q3)] + body[::-1])
+
+
+def tlsh(eff, w, chklen, data, force):
+    """digest bytes or None"""
+    n = len(data)
+    if n < 50 or (not force and n < 256): return None
+    ck = [0] * chklen
+    for e in range(w - 1, n):
+        for t in range(chklen): ck[t] = bmap(ck[t - 1] if t else 0, data[e], data[e - 1], ck[t])
+    return tlsh_encode(eff, chklen, tlsh_buckets(w, data), n, ck, force)
 
 
 def moddiff(x, y, r):
